@@ -189,3 +189,7 @@ def uninstall():
     _mon.register_callback(TOOL_ID, _mon.events.PY_START, None)
     _mon.free_tool_id(TOOL_ID)
     _installed[0] = False
+
+
+import atexit
+atexit.register(uninstall)
